@@ -50,6 +50,10 @@ CHECKS = {
    technique='deterministic simulation of the full stack (real ProxyKmipClient/KMIPProxy/KMIPProtocol over a simulated chunking transport to the real session, engine and SQLite) with clean restarts and crash-restarts; field-by-field read-back oracle',
    text='Objects of the seven stored types with boundary values (empty/1 byte/1024+ byte values, all mask classes, 1-3 names incl. non-ASCII, application information, key wrapping data with every optional field present/absent, split-key fields, large enum members) are stored through the real client library under a seeded KMIP version, interleaved with another client\'s traffic, clean restarts and kill-restarts during other operations; after every step every object is read back (get, get_attributes, get_attribute_list) by a client of another seeded version and compared field by field on an independent projection, and the attribute set must be exactly supplied + server-assigned.',
    note='The attributes a caller can supply are those ProxyKmipClient.register/create send (usage mask, policy name, names, application information); ProxyKmipClient.create adds Encrypt|Decrypt to the mask by design. KMIPProxy.open() is stubbed (cannot run on Python 3.12).'),
+ 'C12': dict(level='exploration', ref='5/C12',
+   technique='deterministic simulation of byte streams over a fault-injecting transport (planned recv chunking, trickle, timeout, reset, EOF inside a frame) against the real session loop; grammar-aware corruption of valid requests; enumerated split points',
+   text='Streams of valid requests and 25 kinds of grammar-aware corruption (plus raw random frames) ending in a valid request are delivered to a real KmipSession frame by frame or as a whole pipelined connection through the real run(), under two chunk plans each. Checked: exactly one well-formed response per framed request (independent TTLV + envelope check); undecodable frames are answered Invalid Message, never reach the engine (spy) and leave the store unchanged; no exception leaves the message loop; the final valid request is answered as on a clean connection; responses do not depend on chunking (every single split point of a frame is enumerated in a sub-batch); Response Too Large exactly when the encoded size exceeds the requested maximum; after timeout/reset run() returns and nothing is executed more often than complete frames arrived.',
+   note='Decodability is classified by a separate call of the real decoder. TLS is below the seam. Max response size 0 is not exercised (the error response itself is larger).'),
 }
 ALL = ['C%02d' % i for i in range(1, 21)]
 
